@@ -120,6 +120,107 @@ def extra_designs():
         yield (f"det/multi_bundle/{n}", multi_bundle(n))
         yield (f"det/multi_ref/{n}", multi_ref(n))
 
+    # designs whose output must not depend on what ELSE the process did before: numeric parameters that have equal
+    # values written differently elsewhere, and a PDK compile (walkers, device caches)
+    def numeric_params():
+        T = h.Module(name="NumT")
+        T.a, T.b = h.Signal(), h.Signal()
+        T.r = h.R(r=1 * h.prefix.K)(p=T.a, n=T.b)
+        T.c = h.C(c=1 * h.prefix.µ)(p=T.a, n=T.b)
+        T.v = h.Vdc(dc=2, ac=0)(p=T.a, n=T.b)
+        T.l = h.L(l=h.Prefixed(number=__import__("decimal").Decimal("2.50"), prefix=h.Prefix.NANO))(p=T.a, n=T.b)
+        E = h.ExternalModule(name="ENum", port_list=[h.Inout(name="p")], paramtype=dict, desc="", domain="d")
+        T.e = E(x=1000, y=2.0, z=3)(p=T.a)
+        return T
+    yield ("det/history/numeric-params", numeric_params)
+
+    def sample_compiled():
+        import hdl21.pdk.sample_pdk as sp
+        Inv = h.Module(name="PInv")
+        Inv.i, Inv.o, Inv.vdd, Inv.vss = h.Input(), h.Output(), h.Inout(), h.Inout()
+        Inv.n = h.Nmos(w=1 * h.prefix.µ, l=1 * h.prefix.µ)(d=Inv.o, g=Inv.i, s=Inv.vss, b=Inv.vss)
+        Inv.p = h.Pmos(w=2 * h.prefix.µ, l=1 * h.prefix.µ)(d=Inv.o, g=Inv.i, s=Inv.vdd, b=Inv.vdd)
+        T = h.Module(name="PTop")
+        T.a, T.b, T.vdd, T.vss = h.Signals(4)
+        T.x = Inv(i=T.a, o=T.b, vdd=T.vdd, vss=T.vss)
+        T.y = Inv(i=T.b, o=T.a, vdd=T.vdd, vss=T.vss)
+        sp.compile(T)
+        return T
+    yield ("det/history/sample-pdk-compiled", sample_compiled)
+
+    def sample_compiled_many(n):
+        def b():
+            import hdl21.pdk.sample_pdk as sp
+            cells = []
+            for k in range(n):
+                C = h.Module(name=f"PCell{k}")
+                C.i, C.o, C.vdd, C.vss = h.Input(), h.Output(), h.Inout(), h.Inout()
+                C.mid = h.Signal()
+                C.p = h.Pmos(w=(2 + k) * h.prefix.µ)(d=C.mid, g=C.i, s=C.vdd, b=C.vdd)
+                C.n = h.Nmos(w=(1 + k) * h.prefix.µ)(d=C.mid, g=C.i, s=C.vss, b=C.vss)
+                C.pd = h.Nmos(w=4 * h.prefix.µ, l=(2 + k) * h.prefix.µ)(d=C.o, g=C.mid, s=C.vss, b=C.vss)
+                cells.append(C)
+            T = h.Module(name=f"PTopMany{n}")
+            T.a, T.b, T.vdd, T.vss = h.Signals(4)
+            for k, C in enumerate(cells):
+                T.add(C(i=T.a if k % 2 else T.b, o=T.b if k % 2 else T.a, vdd=T.vdd, vss=T.vss), name=f"u{k}")
+            sp.compile(T)
+            return T
+        return b
+    for n in (1, 2, 3, 5, 8):
+        yield (f"det/history/sample-pdk-compiled-many/{n}", sample_compiled_many(n))
+
+
+def unrelated_work(rnd, rounds):
+    """earlier, unrelated use of the library in this process: exports and netlists of throw-away designs carrying
+    numbers EQUAL to the family's but written differently, PDK compiles of throw-away designs (freed afterwards, so that
+    later objects may reuse their addresses), elaborations"""
+    import gc
+    import io
+    import hdl21 as h
+    from decimal import Decimal as D
+    import hdl21.pdk.sample_pdk as sp
+    alts = [[1000, 1 * h.prefix.K, 1000 * h.prefix.UNIT, 1e3, D("1000"), D("1E+3")],
+            [1 * h.prefix.µ, 1000 * h.prefix.n, D("0.000001"), 1e-6],
+            [2, 2.0, D("2"), D("2.0"), 2 * h.prefix.UNIT], [D("2.5") * 1, h.Prefixed(number=D("2.5"), prefix=h.Prefix.NANO),
+                                                          h.Prefixed(number=D("2500"), prefix=h.Prefix.PICO)],
+            [3, 3.0, D("3.00")], [0, 0.0, D("0")]]
+    for _ in range(rounds):
+        J = h.Module(name="Junk")
+        J.a, J.b = h.Signal(), h.Signal()
+        E = h.ExternalModule(name="EJ", port_list=[h.Inout(name="p")], paramtype=dict, desc="", domain="d")
+        for k in range(rnd.randint(1, 5)):
+            vs = [rnd.choice(rnd.choice(alts)) for _ in range(4)]
+            try:
+                J.add(h.R(r=vs[0])(p=J.a, n=J.b), name=f"r{k}")
+                J.add(h.C(c=vs[1])(p=J.a, n=J.b), name=f"c{k}")
+                J.add(h.Vdc(dc=vs[2], ac=vs[3])(p=J.a, n=J.b), name=f"v{k}")
+                J.add(E(x=vs[0], y=vs[2], z=vs[3])(p=J.a), name=f"e{k}")
+            except Exception:
+                pass
+        try:
+            pkg = h.to_proto(J)
+            import vlsirtools
+            vlsirtools.netlist(pkg=pkg, dest=io.StringIO(), fmt="spice")
+        except Exception:
+            pass
+        # PDK compiles of designs that are dropped afterwards (many distinct devices: each compile replaces and frees
+        # that many PrimitiveCalls, whose addresses later objects may reuse)
+        for k in range(rnd.randint(1, 3)):
+            P = h.Module(name=f"JunkP{k}")
+            P.i, P.o, P.vdd, P.vss = h.Signals(4)
+            for j in range(rnd.randint(4, 14)):
+                P.add(h.Pmos(w=(3 + j) * h.prefix.µ)(d=P.o, g=P.i, s=P.vdd, b=P.vdd), name=f"p{j}")
+                P.add(h.Nmos(w=(30 + j) * h.prefix.µ)(d=P.o, g=P.i, s=P.vss, b=P.vss), name=f"n{j}")
+            try:
+                sp.compile(P)
+                h.netlist(P, io.StringIO(), fmt="spice")
+            except Exception:
+                pass
+            del P
+        del J
+        gc.collect()
+
 
 def worker_main():
     """One process: digests of every design's package and netlists, after seeded unrelated work."""
@@ -135,6 +236,9 @@ def worker_main():
     fam = list(extra_designs()) + fam
     out = {}
     junk = []
+    # the first process of a run is "fresh" (no earlier work); the others have done 1..6 rounds of unrelated work
+    hs = int(os.environ.get("PYTHONHASHSEED", "0") or 0)
+    unrelated_work(rnd, 0 if hs <= 1 else 2 + hs % 6)
     for k, (desc, b) in enumerate(fam):
         # unrelated allocation and elaboration, different in every process
         junk.append([object() for _ in range(rnd.randint(0, 200))])
@@ -145,6 +249,8 @@ def worker_main():
                 h.elaborate(fam[rnd.randrange(len(fam))][1]())
             except Exception:
                 pass
+        if hs > 1 and desc.startswith("det/history"):
+            unrelated_work(rnd, 1)
         try:
             pkg = h.to_proto(b())
             dig = hashlib.sha1(pkg.SerializeToString(deterministic=True)).hexdigest()[:12]
@@ -210,7 +316,7 @@ def run(ctx):
         return None
     ctx.run_bounded("multi-process-digests", cases(), check,
                     rule="each design exported and netlisted (spice, spectre, verilog) in %d processes with different "
-                         "PYTHONHASHSEED and seeded unrelated allocation/elaboration first; digests must coincide; "
+                         "PYTHONHASHSEED; the first process fresh, the others after 1-6 rounds of unrelated earlier work (exports and netlists of throw-away designs with equal numbers written differently, sample-PDK compiles of designs freed afterwards, allocation, elaboration); digests must coincide; "
                          "distinct = distinct design; non-trivial = all but scalar-only designs" % len(hashseeds),
                     bound=f"{len(hashseeds)} hash seeds", key_of=lambda d: d,
                     nontrivial=lambda d: not d.startswith("sig/scalar"))
